@@ -157,7 +157,7 @@ def main():
     verdict_lines, exit_code = [], 0
     need_search = (not proof_ok) or out.disagreements or harness_error
     if need_search and not new_violations and binfo["driver_ok"] and not harness_error and hasattr(hmod, "run"):
-        sctx = Ctx(prop, args.tier, seed + 7919, scale=10)
+        sctx = Ctx(prop, args.tier, seed + 7919, scale=int(os.environ.get("VERIF_SEARCH_SCALE", "10") or 10))
         sout = Outcome()
         try:
             if hasattr(hmod, "search"):
